@@ -286,6 +286,40 @@ example {n : Type} [Fintype n] [DecidableEq n] {K : Type} [CommRing K] [StarRing
       = ((fun 𝒪 : Matrix n n K → Matrix n n K => U * 𝒪 ρ₀ * U.conjTranspose) 𝒪).conjTranspose := by
   simp only [Matrix.conjTranspose_mul, Matrix.conjTranspose_conjTranspose, hρ, Matrix.mul_assoc]
 
+/-! ### the value of an entry -/
+
+/-- the contraction that a list of (operator axis, state axis) pairs denotes -/
+def contractPairs {n : Type} [Fintype n] {K : Type} [CommRing K]
+    (pairs : List (Nat × Nat)) (O ρ : Matrix n n K) : Option K :=
+  if pairs = [(0, 1), (1, 0)] then some (∑ i, ∑ j, O i j * ρ j i)
+  else if pairs = [(0, 0), (1, 1)] then some (∑ i, ∑ j, O i j * ρ i j)
+  else none
+
+/-- The value stored for a step tuple is `Tr(O·ρ)`: the operator that acts last in time
+    (`operators[-1]`), contracted with the state recorded at the last step — the regenerated index
+    pairing of `dynamics.expectations` (a `tensordot`/`einsum` form must give the same pairing);
+    the earlier operators enter as left/right superoperators through `Control.add_single` at
+    their integer steps (their composition is C18's concern, the contraction C03's). -/
+theorem entry_value {n : Type} [Fintype n] [DecidableEq n] {K : Type} [CommRing K]
+    (O ρ : Matrix n n K) :
+    contractPairs final_value_pairs O ρ = some (Matrix.trace (O * ρ)) ∧
+    final_value_selection = ["corr[last_times]"] ∧
+    earlier_operator_insertion =
+      ["ops_order[i] == 'left'", "ops_order[i] == 'right'",
+       "control.add_single(int(first_times[i]), super_operators[i])",
+       "left_super(operators[i])", "right_super(operators[i])"] := by
+  refine ⟨?_, by decide, by decide⟩
+  rw [show final_value_pairs = [(0, 1), (1, 0)] from rfl]
+  simp only [contractPairs, if_true, Matrix.trace, Matrix.diag, Matrix.mul_apply]
+
+/-- the other pairing, `Σ O[i,j]·ρ[i,j] = Tr(Oᵀρ)`, differs for a non-symmetric operator -/
+example :
+    let O : Matrix (Fin 2) (Fin 2) ℚ := !![0, 1; 0, 0]
+    let ρ : Matrix (Fin 2) (Fin 2) ℚ := !![0, 0; 1, 0]
+    contractPairs [(0, 1), (1, 0)] O ρ = some 1 ∧ contractPairs [(0, 0), (1, 1)] O ρ = some 0 := by
+  intro O ρ
+  constructor <;> simp [contractPairs, O, ρ, Fin.sum_univ_two]
+
 /-! ### `_parse_times` -/
 
 /-- every parsed step is a step of the process tensor -/
